@@ -176,6 +176,60 @@ def poolRoute (rx : Rx) (q : Quirks) (apps : List (MountPoint × Opts)) (meth h 
   | none => none
   | some (i, m) => some (i, appMain rx q (some meth) ((apps[i]?.map (·.2)).getD .nil) m)
 
+/-! ### both lists of `applications_pool`
+
+`mount(pool,mp,flags)` / `mount(factory,mp)` append to `apps`; `mount(intrusive_ptr<application>,mp)` (the classic
+asynchronous application) appends to `legacy_async_apps`.  `get_application_specific_pool` scans **all of `apps`
+first**, then `legacy_async_apps`; the second loop always runs to the end because it also erases pools whose
+application has died (`flags()==-1`), and keeps the first hit through its `else if(!result)` guard.
+A mount is `(legacyAsync, mount point)`; indexes are positions in overall mount order. -/
+
+/-- first loop: returns at the first match -/
+def poolScanApps (rx : Rx) (q : Quirks) (h s p : Bytes) : List (Nat × MountPoint) → Option (Nat × Bytes)
+  | [] => none
+  | (i, mp) :: rest =>
+    match mpMatchPtr rx q mp h s p with
+    | some m => some (i, m)
+    | none => poolScanApps rx q h s p rest
+
+/-- second loop: `dead` pools are erased; a live one is examined only while there is no result yet -/
+def poolScanLegacy (rx : Rx) (q : Quirks) (h s p : Bytes) (dead : List Nat) :
+    List (Nat × MountPoint) → Option (Nat × Bytes) → Option (Nat × Bytes)
+  | [], result => result
+  | (i, mp) :: rest, result =>
+    if dead.contains i then poolScanLegacy rx q h s p dead rest result
+    else match result with
+      | some r => poolScanLegacy rx q h s p dead rest (some r)
+      | none =>
+        match mpMatchPtr rx q mp h s p with
+        | none => poolScanLegacy rx q h s p dead rest none
+        | some m => poolScanLegacy rx q h s p dead rest (some (i, m))
+
+def mountsOf (legacy : Bool) (ms : List (Bool × MountPoint)) : List (Nat × MountPoint) :=
+  ms.zipIdx.filterMap fun (am, i) => if am.1 == legacy then some (i, am.2) else none
+
+/-- `applications_pool::get_application_specific_pool` -/
+def poolFindAll (rx : Rx) (q : Quirks) (h s p : Bytes) (ms : List (Bool × MountPoint)) (dead : List Nat) : Option (Nat × Bytes) :=
+  match poolScanApps rx q h s p (mountsOf false ms) with
+  | some r => some r
+  | none => poolScanLegacy rx q h s p dead (mountsOf true ms) none
+
+/-- `rounds` times: route the request and let the application that got it die if it is a classic asynchronous one
+(its pool then has `flags()==-1` and is purged by the next scan); the set of dead mounts afterwards -/
+def poolKill (rx : Rx) (q : Quirks) (h s p : Bytes) (ms : List (Bool × MountPoint)) : Nat → List Nat → List Nat
+  | 0, dead => dead
+  | r + 1, dead =>
+    match poolFindAll rx q h s p ms dead with
+    | some (i, _) => if (ms[i]?.map (·.1)).getD false then poolKill rx q h s p ms r (i :: dead) else dead
+    | none => dead
+
+def poolRouteAll (rx : Rx) (q : Quirks) (apps : List (Bool × MountPoint × Opts)) (rounds : Nat) (meth h s p : Bytes) :
+    Option (Nat × Bytes × List Event) :=
+  let ms := apps.map fun a => (a.1, a.2.1)
+  match poolFindAll rx q h s p ms (poolKill rx q h s p ms rounds []) with
+  | none => none
+  | some (i, m) => some (i, m, appMain rx q (some meth) ((apps[i]?.map (·.2.2)).getD .nil) m)
+
 /-! ## url_mapper -/
 
 /-- `atoi` on a non-empty string of ASCII digits as glibc computes it: `strtol` saturating at
